@@ -3669,41 +3669,131 @@ func checkByteArrayKeySource(r *Reporter, p *Prog) {
 func checkTimestampSaturation(r *Reporter, p *Prog) {
 	const rule = "cmp/timestamp-saturation"
 	info := p.Pkg(pkgSer).TypesInfo
+	di := p.decls()
+	isMax := func(e ast.Expr) bool {
+		k := rawKey(e)
+		return k == "math.MaxInt64" || k == "uint64(math.MaxInt64)"
+	}
+	// the instant of the last representable nanosecond, spelled time.Unix(0, math.MaxInt64) - inline or
+	// as a package-level variable that is initialised with it and never assigned
+	var isMaxInstant func(e ast.Expr) bool
+	isMaxInstant = func(e ast.Expr) bool {
+		e = ast.Unparen(e)
+		if c, ok := e.(*ast.CallExpr); ok {
+			if qualifiedCallee(info, c) == "time.Unix" && len(c.Args) == 2 && rawKey(c.Args[0]) == "0" && isMax(c.Args[1]) {
+				return true
+			}
+			if se, isSel := ast.Unparen(c.Fun).(*ast.SelectorExpr); isSel && se.Sel.Name == "UTC" && len(c.Args) == 0 {
+				return isMaxInstant(se.X)
+			}
+			return false
+		}
+		id, ok := e.(*ast.Ident)
+		if !ok {
+			return false
+		}
+		v, isVar := info.Uses[id].(*types.Var)
+		if !isVar || v.Pkg() == nil || v.Parent() != v.Pkg().Scope() {
+			return false
+		}
+		var init ast.Expr
+		assigned := false
+		for _, file := range p.Pkg(pkgSer).Syntax {
+			ast.Inspect(file, func(n ast.Node) bool {
+				switch x := n.(type) {
+				case *ast.ValueSpec:
+					for i, nm := range x.Names {
+						if info.Defs[nm] == v && i < len(x.Values) {
+							init = x.Values[i]
+						}
+					}
+				case *ast.AssignStmt:
+					for _, l := range x.Lhs {
+						if lid, isId := ast.Unparen(l).(*ast.Ident); isId && info.Uses[lid] == v {
+							assigned = true
+						}
+					}
+				case *ast.UnaryExpr:
+					if lid, isId := ast.Unparen(x.X).(*ast.Ident); x.Op == token.AND && isId && info.Uses[lid] == v {
+						assigned = true
+					}
+				}
+				return true
+			})
+		}
+		return init != nil && !assigned && isMaxInstant(init)
+	}
 	for _, row := range []struct{ recv, name string }{{"", "TimeToUint64"}, {"Deserializer", "ReadTime"}} {
-		fd := p.FuncDecl(pkgSer, row.recv, row.name)
+		top := p.FuncDecl(pkgSer, row.recv, row.name)
 		key := pkgSer + "." + row.name
-		if fd == nil {
+		if top == nil {
 			r.Unresolved(rule, key, "function not found")
 			continue
 		}
-		f := newFuncCFG(p, info, fd.Body, key)
-		isMax := func(e ast.Expr) bool {
-			k := rawKey(e)
-			return k == "math.MaxInt64" || k == "uint64(math.MaxInt64)"
-		}
-		sat := f.Find(func(n ast.Node) bool {
-			switch x := n.(type) {
-			case *ast.AssignStmt:
-				return len(x.Rhs) == 1 && isMax(x.Rhs[0])
-			case *ast.ReturnStmt:
-				return len(x.Results) == 1 && isMax(x.Results[0])
+		// the function itself, or the conversion function of the package it delegates to (depth 2)
+		cands := []*ast.FuncDecl{top}
+		seen := map[*ast.FuncDecl]bool{top: true}
+		for depth, work := 0, []*ast.FuncDecl{top}; depth < 2; depth++ {
+			var next []*ast.FuncDecl
+			for _, fd := range work {
+				ast.Inspect(fd.Body, func(n ast.Node) bool {
+					if c, ok := n.(*ast.CallExpr); ok {
+						if fn := staticCallee(info, c); fn != nil {
+							if cd := di.byFunc[fn.Origin()]; cd != nil && cd.Body != nil && di.infoOf[cd] == info && !seen[cd] {
+								seen[cd] = true
+								next = append(next, cd)
+								cands = append(cands, cd)
+							}
+						}
+					}
+					return true
+				})
 			}
-			return false
-		})
-		if len(sat) == 0 {
-			r.Fail(rule, key, p.posStr(fd.Pos()), "no saturation to math.MaxInt64 found")
-			continue
+			work = next
 		}
-		strict := f.RelEdgesAt(func(rel Rel) bool { return rel.L == "MaxNanoTimestampInt64Seconds" && rel.Op == "<" })
-		ok := true
-		for _, pt := range sat {
-			if w, only := f.OnlyThroughEdges(pt, strict); !only {
-				ok = false
-				r.Fail(rule, key, f.PosOf(pt), "the timestamp is saturated to MaxInt64 on a path that has not established seconds > MaxNanoTimestampInt64Seconds (strictly): timestamps inside the last representable second lose their value and several byte strings decode to the same time", w...)
+		judged := false
+		for _, fd := range cands {
+			f := newFuncCFG(p, info, fd.Body, key)
+			sat := f.Find(func(n ast.Node) bool {
+				switch x := n.(type) {
+				case *ast.AssignStmt:
+					return len(x.Rhs) == 1 && isMax(x.Rhs[0])
+				case *ast.ReturnStmt:
+					return len(x.Results) == 1 && isMax(x.Results[0])
+				}
+				return false
+			})
+			if len(sat) == 0 {
+				continue
 			}
+			judged = true
+			// the exact saturation conditions: whole seconds strictly above the last representable second;
+			// the nanosecond count strictly above MaxInt64; the time strictly after the instant
+			// time.Unix(0, MaxInt64)
+			strict := f.RelEdgesAt(func(rel Rel) bool {
+				return (rel.L == "MaxNanoTimestampInt64Seconds" && rel.Op == "<") || ((rel.L == "math.MaxInt64" || rel.L == "uint64(math.MaxInt64)") && rel.Op == "<")
+			})
+			f.forEachEdgeFact(func(e Edge, b *cfg.Block, ft fact) {
+				if c, ok := ast.Unparen(ft.Atom).(*ast.CallExpr); ok && ft.Pol && len(c.Args) == 1 {
+					if se, isSel := ast.Unparen(c.Fun).(*ast.SelectorExpr); isSel && se.Sel.Name == "After" && strings.HasSuffix(typeName(info.TypeOf(se.X)), "time.Time") && isMaxInstant(c.Args[0]) {
+						strict = append(strict, e)
+					}
+				}
+			})
+			ok := true
+			for _, pt := range sat {
+				if w, only := f.OnlyThroughEdges(pt, strict); !only {
+					ok = false
+					r.Fail(rule, key, f.PosOf(pt), "the timestamp is saturated to MaxInt64 on a path that has not established seconds > MaxNanoTimestampInt64Seconds (strictly) or nanoseconds > MaxInt64 / time after time.Unix(0, MaxInt64): timestamps inside the last representable second lose their value and several byte strings decode to the same time", w...)
+				}
+			}
+			if ok {
+				r.Pass(rule, key, f.PosOf(sat[0]), "saturation only beyond the last representable nanosecond (in "+fd.Name.Name+")")
+			}
+			break
 		}
-		if ok {
-			r.Pass(rule, key, f.PosOf(sat[0]), "saturation only when seconds > MaxNanoTimestampInt64Seconds")
+		if !judged {
+			r.Fail(rule, key, p.posStr(top.Pos()), "no saturation to math.MaxInt64 found")
 		}
 	}
 }
